@@ -47,6 +47,43 @@ def collect (atoms : List Atom) : List Cand := (atoms.filter Atom.visited).flatM
 
 def gatherMatches (name : Bytes) (atoms : List Atom) : List Cand := gatherCands name (collect atoms)
 
+/-! ### the match tree proper -/
+
+/-- a match tree as `visitMatches` sees it; the `Bool` next to a child of and / or / andLine is `known[child]`
+    (a missing key reads as `false` in Go) -/
+inductive MT where
+  | atom (kind : Nat) (cands : List Cand)   -- substr / regexp / word / symbolRegexp tree holding its candidates
+  | other                                   -- any other leaf (docMatchTree, branchQueryMatchTree, …): visited, nothing collected
+  | and (ch : List (Bool × MT))
+  | or (ch : List (Bool × MT))
+  | andLine (ch : List (Bool × MT))
+  | not (c : MT)
+  | noVisit (c : MT)
+  | fileName (c : MT)
+  | boost (c : MT)
+  | symbolSubstr (c : MT)
+
+mutual
+/-- `visitMatches` with the collecting callback of `gatherMatches`: what is appended to `cands` -/
+def visit : MT → List Cand
+  | .atom _ cs => cs
+  | .other => []
+  | .and ch => visitList ch
+  | .or ch => visitList ch
+  | .andLine ch => visitList ch
+  | .boost c => visit c
+  | .symbolSubstr c => visit c
+  | .not _ => []          -- don't collect into negative trees
+  | .noVisit _ => []
+  | .fileName _ => []     -- "we will just gather the filename if we do not visit this tree"
+def visitList : List (Bool × MT) → List Cand
+  | [] => []
+  | (k, t) :: r => (if k then visit t else []) ++ visitList r
+end
+
+/-- `gatherMatches(nextDoc, mt, known)` -/
+def gatherTree (name : Bytes) (t : MT) : List Cand := gatherCands name (visit t)
+
 /-! ## rune offsets -/
 
 /-- `runeOffsetFrequency` -/
